@@ -172,3 +172,12 @@ func NewVEnv(height int64) *VEnv {
 	env := &VEnv{K: k, Ctx: ctx, MS: ms, Bank: bank, EVM: evm, Staking: staking, Handler: handler}
 	return env
 }
+
+// VerifEntries lists the harness entry points of this package (native replay looks them up by
+// name); every harness file adds its own with vEntry so that several can be overlaid together.
+var VerifEntries = map[string]func(){}
+
+func vEntry(name string, f func()) bool {
+	VerifEntries[name] = f
+	return true
+}
